@@ -581,6 +581,50 @@ theorem C28_names_unique_table (t : Table) (reqs : List Req) :
     ((uniqueNames t reqs).filter GName.isGen).Nodup :=
   uniqueNames_nodup reqs t
 
+/-- The generated region names of the routines of one file (`(routine name, body)` each; routines
+of different modules may have the same name). -/
+def fileNames (rs : List (Nat × Stmt)) : List RName :=
+  rs.flatMap fun r => (loweredNames r.1 r.2).filter isAuto
+
+/-- Full-strength name clause for a file: all generated names pairwise distinct. -/
+def C28_names_statement : Prop := ∀ rs : List (Nat × Stmt), (fileNames rs).Nodup
+
+theorem auto_name_routine {routine : Nat} {p : Stmt} {n : RName}
+    (h : n ∈ (loweredNames routine p).filter isAuto) : ∃ j, n = RName.auto routine j := by
+  have hm := List.mem_filter.mp h
+  obtain ⟨j, _, e⟩ := nameFrom_auto_ge routine (regions p) 0 n hm.1 hm.2
+  exact ⟨j, e⟩
+
+/-- **Names across routines (partial)**: if the instrumented routines of a file have pairwise
+distinct names, all generated region names are pairwise distinct. -/
+theorem C28_names_unique_file_partial (rs : List (Nat × Stmt)) (h : (rs.map Prod.fst).Nodup) :
+    (fileNames rs).Nodup := by
+  induction rs with
+  | nil => simp [fileNames]
+  | cons r rest ih =>
+    simp only [List.map_cons, List.nodup_cons] at h
+    simp only [fileNames, List.flatMap_cons]
+    refine List.nodup_append.mpr ⟨C28_names_unique r.1 r.2, ih h.2, ?_⟩
+    intro a ha b hb hab
+    subst hab
+    obtain ⟨j, e⟩ := auto_name_routine ha
+    obtain ⟨r', hr', hb'⟩ := List.mem_flatMap.mp hb
+    obtain ⟨j', e'⟩ := auto_name_routine hb'
+    rw [e] at e'
+    have hr : r.1 = r'.1 := by injection e'
+    exact h.1 (List.mem_map.mpr ⟨r', hr', hr.symm⟩)
+
+/-- **Pinned code violates the name clause** (kernel-checked witness, known finding
+`C28-same-routine-name`): `lower_to_language_level` uses the *routine* name as module name, so two
+routines called `work` in two modules of one file both get the region `("work", "r0")`. -/
+theorem same_routine_name_counterexample : ¬ C28_names_statement := by
+  intro h
+  have := h [(5, .region ⟨0, .profile, none⟩ (.basic false)), (5, .region ⟨0, .profile, none⟩ (.basic false))]
+  exact absurd this (by decide)
+
+example : (fileNames [(5, .region ⟨0, .profile, none⟩ .skip), (6, .region ⟨0, .profile, none⟩ .skip)]).Nodup := by
+  decide
+
 /-! ### non-vacuity and sanity evaluations -/
 
 def rP : RInfo := ⟨0, .profile, none⟩
